@@ -189,9 +189,14 @@ def sig_rules(ctx: Ctx, fi, loop, m: str) -> None:
         for n in ast.walk(loop):
             if not isinstance(n, ast.If):
                 continue
-            cmps = [c for c in ast.walk(n.test) if isinstance(c, ast.Compare) and len(c.ops) == 1 and isinstance(c.left, ast.Attribute)
-                    and c.left.attr in attrs and isinstance(c.left.value, ast.Name) and c.left.value.id == m]
-            if not cmps or len({c.left.attr for c in cmps}) != len(attrs):
+            def msg_side(c):
+                """(attribute of the message, the other operand) for a comparison that has `m.attr` on one side, else None."""
+                for a_, b_ in ((c.left, c.comparators[0]), (c.comparators[0], c.left)):
+                    if isinstance(a_, ast.Attribute) and a_.attr in attrs and isinstance(a_.value, ast.Name) and a_.value.id == m:
+                        return a_.attr, b_
+                return None
+            cmps = [c for c in ast.walk(n.test) if isinstance(c, ast.Compare) and len(c.ops) == 1 and msg_side(c) is not None]
+            if not cmps or len({msg_side(c)[0] for c in cmps}) != len(attrs):
                 continue
             found = True
             inst = f"{FN}: {T} filter `{short(n.test, 80)}`"
@@ -215,10 +220,10 @@ def sig_rules(ctx: Ctx, fi, loop, m: str) -> None:
             ok = not isinstance(cond, ast.BoolOp) or isinstance(cond.op, ast.Or)
             all_or = ok
             for c in leaves:
-                good = isinstance(c, ast.Compare) and len(c.ops) == 1 and isinstance(c.ops[0], ast.NotEq) and isinstance(c.left, ast.Attribute) \
-                    and c.left.attr in attrs and isinstance(c.left.value, ast.Name) and c.left.value.id == m and isinstance(c.comparators[0], ast.Name)
+                ms = msg_side(c) if isinstance(c, ast.Compare) and len(c.ops) == 1 else None
+                good = ms is not None and isinstance(c.ops[0], ast.NotEq) and isinstance(ms[1], ast.Name)
                 if good:
-                    pairs[c.left.attr] = c.comparators[0].id
+                    pairs[ms[0]] = ms[1].id
                 else:
                     ok = False
             ok = ok and set(pairs) == set(attrs)
